@@ -71,21 +71,39 @@ type slot = { vid : int; x : rnum }
 let next_vid = ref 0
 let fresh x = incr next_vid; { vid = !next_vid; x }
 
-let cmp_cache : (int * int, int) Hashtbl.t = Hashtbl.create 256
-let rcmp (a : slot) (b : slot) : int =
+(* The expensive reference functions are memoised (pure functions of immutable arguments; the keys are the version of
+   the reference number and the printed token).  The closures built from these tables are what the VERIFIED checker
+   Model.check_step (coq/RefineCheck.v) is run with. *)
+let raw_cache : (string, rnum) Hashtbl.t = Hashtbl.create 1024
+let raw_toks : (rnum * string) list ref = ref []
+(* the printed representation as an rnum, NOT normalised: RA f lo hi / RQ point *)
+let raw_of (r : rep) : rnum =
+  match Hashtbl.find_opt raw_cache r.tok with
+  | Some x -> x
+  | None ->
+    let x = (match r.f with Some p -> RA (p, r.lo, r.hi) | None -> RQ r.lo) in
+    Hashtbl.replace raw_cache r.tok x; raw_toks := (x, r.tok) :: !raw_toks; x
+
+let cmp_cache : (int * int, z option) Hashtbl.t = Hashtbl.create 256
+let cmpz (a : slot) (b : slot) : z option =
   match Hashtbl.find_opt cmp_cache (a.vid, b.vid) with
   | Some c -> c
-  | None -> let c = sg (some (rn_cmp fuel a.x b.x)) in Hashtbl.replace cmp_cache (a.vid, b.vid) c; c
-let floor_cache : (int, string) Hashtbl.t = Hashtbl.create 64
-let rfloor (a : slot) : string =
+  | None -> let c = rn_cmp fuel a.x b.x in Hashtbl.replace cmp_cache (a.vid, b.vid) c; c
+let rcmp (a : slot) (b : slot) : int = sg (some (cmpz a b))
+let floor_cache : (int, z option) Hashtbl.t = Hashtbl.create 64
+let floorz (a : slot) : z option =
   match Hashtbl.find_opt floor_cache a.vid with
   | Some c -> c
-  | None -> let c = string_of_z (some (rn_floor fuel a.x)) in Hashtbl.replace floor_cache a.vid c; c
+  | None -> let c = rn_floor fuel a.x in Hashtbl.replace floor_cache a.vid c; c
+let rfloor (a : slot) : string = string_of_z (some (floorz a))
 let den_cache : (int * string, bool) Hashtbl.t = Hashtbl.create 1024
+(* Model.same_number: the representation is valid (rn_valid) and rn_cmp with the reference number says 0 *)
 let denotes (a : slot) (r : rep) : bool =
   match Hashtbl.find_opt den_cache (a.vid, r.tok) with
   | Some b -> b
-  | None -> let b = (match rn_cmp fuel a.x r.v with Some c -> sg c = 0 | None -> raise Fuel) in
+  | None ->
+    let b = same_number fuel (raw_of r) a.x in
+    if not b && rn_cmp fuel (rn_norm (raw_of r)) a.x = None then raise Fuel;
     Hashtbl.replace den_cache (a.vid, r.tok) b; b
 
 let kind_class k = match k with "a" | "p" -> "alg" | k -> k
@@ -178,7 +196,7 @@ let show_pval = function Exact x -> string_of_rnum x | Encl (l, h) -> "a number 
 
 (* ---------------------------------------------------------------- the run *)
 let run (toks : string list) (cout : string list) : string =
-  refined_cache := []; Hashtbl.reset cmp_cache; Hashtbl.reset floor_cache; Hashtbl.reset den_cache;
+  refined_cache := []; raw_toks := []; Hashtbl.reset raw_cache; Hashtbl.reset cmp_cache; Hashtbl.reset floor_cache; Hashtbl.reset den_cache;
   let step = ref 0 and cur_op = ref "init" in
   try
     let (mode, pool_toks, poly_toks, ops) =
@@ -210,6 +228,41 @@ let run (toks : string list) (cout : string list) : string =
     let next () = match !out with h :: t -> out := t; h | [] -> fail "C output ends early" in
     let expect s = let t = next () in if t <> s then fail "C output out of step: expected %s, got %s" s t in
     let read_reps () : rep array = Array.init ns (fun _ -> parse_rep (next ())) in
+    (* ---- the verified checker: Model.check_step run with the memoised closures *)
+    let slot_of (x : rnum) : slot option =
+      let r = ref None in Array.iter (fun sl -> if sl.x == x then r := Some sl) pool; !r in
+    let sn (r : rnum) (x : rnum) : bool =
+      match List.assq_opt r !raw_toks, slot_of x with
+      | Some t, Some sl -> denotes sl (parse_rep t)
+      | _ -> same_number fuel r x in
+    let cmpf (x : rnum) (y : rnum) : z option =
+      match slot_of x, slot_of y with Some a, Some b -> cmpz a b | _ -> rn_cmp fuel x y in
+    let flf (x : rnum) : z option = match slot_of x with Some a -> floorz a | None -> rn_floor fuel x in
+    let pool_list () = Array.to_list (Array.map (fun sl -> sl.x) pool) in
+    let vsteps = ref 0 in
+    let vstep (what : string) (op : cop) (ob : cobs) (reps : rep array option) : unit =
+      let it = { it_op = op; it_obs = ob;
+                 it_reps = (match reps with None -> None | Some a -> Some (Array.to_list (Array.map raw_of a))) } in
+      let pl = pool_list () in
+      incr vsteps;
+      match check_step sn cmpf flf fuel pl it with
+      | Some pl' ->
+        (* the reference pool of the driver IS the pool the verified checker returns *)
+        List.iteri (fun k x -> if not (x == pool.(k).x) then
+                       pool.(k) <- (match slot_of x with Some sl -> sl | None -> fresh x)) pl'
+      | None ->
+        if not (check_obs sn cmpf flf fuel pl op ob) then
+          fail "%s: the verified checker (RefineCheck.check_step) rejects the observation" what
+        else (match next_pool fuel pl op with
+            | None -> raise Fuel
+            | Some pl' ->
+              (match reps with
+               | Some a -> Array.iteri (fun i (r : rep) ->
+                   if not (sn (raw_of r) (List.nth pl' i)) then
+                     fail "%s: slot %d no longer denotes its number: now %s, reference %s" what i r.tok (string_of_rnum (List.nth pl' i))) a
+               | None -> ());
+              fail "%s: rejected by the verified checker" what) in
+    let nat i = nat_of_int i in
     let check_reps (what : string) (reps : rep array) =
       Array.iteri (fun i r ->
           if not (denotes pool.(i) r) then
@@ -264,6 +317,7 @@ let run (toks : string list) (cout : string list) : string =
         let f = split ':' optok in
         let slot k = int_of_string (List.nth f k) in
         let assigned = ref [] in
+        let vitem : (cop * cobs) ref = ref (CTouch, BNone) in
         let after_check : (rep array -> unit) ref = ref (fun _ -> ()) in
         let obs_sign name exp = let o = next () in if o <> string_of_int exp then fail "%s: %s is %s, reference says %d" what name o exp in
         (* exact prediction of the representation of the slots the state machine models; list of (slot, predicted) *)
@@ -279,6 +333,7 @@ let run (toks : string list) (cout : string list) : string =
            let i = slot 1 and j = slot 2 in
            let e = rcmp pool.(i) pool.(j) in
            obs_sign "lp_value_cmp" e;
+           vitem := (CCmp (nat i, nat j), BInt (z_of_int e));
            (match before.(i).kind, before.(j).kind with
             | ("a" | "p"), ("a" | "p") when i <> j ->
               (match anum_of_tok before.(i).tok, anum_of_tok before.(j).tok with
@@ -313,36 +368,43 @@ let run (toks : string list) (cout : string list) : string =
            let i = slot 1 in let q = (z_of_string z, z_of_int 1) in
            let e = sg (rn_cmp_q pool.(i).x q) in
            obs_sign "cmp_integer" e;
+           vitem := (CCmpQ (nat i, q), BInt (z_of_int e));
            (match anum_of_tok before.(i).tok with Some x -> pred_one i (an_cmp_q mfuel x q) e | None -> ())
          | ["cq"; _; qs] ->
            let i = slot 1 in let q = q_of_string qs in
            let e = sg (rn_cmp_q pool.(i).x q) in
            obs_sign "cmp_rational" e;
+           vitem := (CCmpQ (nat i, q), BInt (z_of_int e));
            (match anum_of_tok before.(i).tok with Some x -> pred_one i (an_cmp_q mfuel x q) e | None -> ())
          | ["cd"; _; ds] ->
            let i = slot 1 in let q = rat_of_dy_string ds in
            let e = sg (rn_cmp_q pool.(i).x q) in
            obs_sign "cmp_dyadic_rational" e;
+           vitem := (CCmpQ (nat i, q), BInt (z_of_int e));
            (match anum_of_tok before.(i).tok with Some x -> pred_one i (an_cmp_q mfuel x q) e | None -> ())
          | ["sg"; _] ->
            let i = slot 1 in
            let e = sg (rn_sgn pool.(i).x) in
            obs_sign "sgn" e;
+           vitem := (CSgn (nat i), BInt (z_of_int e));
            (match anum_of_tok before.(i).tok with Some x -> pred_one i (an_cmp_q mfuel x (Z0, z_of_int 1)) e | None -> ())
          | ["fl"; _] ->
            let i = slot 1 in let o = next () in
            if o <> rfloor pool.(i) then fail "%s: floor is %s, reference says %s" what o (rfloor pool.(i));
+           vitem := (CFloor (nat i), BInt (z_of_string o));
            (match anum_of_tok before.(i).tok with
             | Some x -> if string_of_z (an_floor x) <> o then fail "%s: floor is %s, the state machine of Refine.v computes %s" what o (string_of_z (an_floor x))
             | None -> ())
          | ["ce"; _] ->
            let i = slot 1 in let o = next () in
            let e = string_of_z (some (rn_ceiling fuel pool.(i).x)) in
-           if o <> e then fail "%s: ceiling is %s, reference says %s" what o e
+           if o <> e then fail "%s: ceiling is %s, reference says %s" what o e;
+           vitem := (CCeil (nat i), BInt (z_of_string o))
          | ["ii"; _] ->
            let i = slot 1 in let o = next () in
            let e = string_of_bool01 (some (rn_is_integer fuel pool.(i).x)) in
-           if o <> e then fail "%s: is_integer is %s, reference says %s" what o e
+           if o <> e then fail "%s: is_integer is %s, reference says %s" what o e;
+           vitem := (CIsInt (nat i), BBool (o = "1"))
          | ["db"; _] ->
            let i = slot 1 in let o = next () in
            (match split ':' o with
@@ -374,24 +436,23 @@ let run (toks : string list) (cout : string list) : string =
                  if sg (q_cmp m (q_mid after.(i).lo after.(i).hi)) <> 0 then fail "%s: midpoint %s is not the midpoint of %s" what o after.(i).tok
                | ["-"], _ -> ()
                | _ -> fail "%s: midpoint %s of %s" what o after.(i).tok)
-         | [("add" | "sub" | "mul") as o; _; _; _] ->
+         | [("add" | "sub" | "mul" | "div") as o; _; _; _] ->
            let d = slot 1 and a = slot 2 and b = slot 3 in ignore (next ());
-           let r = some ((match o with "add" -> rn_add | "sub" -> rn_sub | _ -> rn_mul) fuel pool.(a).x pool.(b).x) in
-           pool.(d) <- fresh r; assigned := [d]; predict := None
-         | ["div"; _; _; _] ->
-           let d = slot 1 and a = slot 2 and b = slot 3 in ignore (next ());
-           if sg (rn_sgn pool.(b).x) = 0 then raise (Skip "division by zero");
-           pool.(d) <- fresh (some (rn_div fuel pool.(a).x pool.(b).x)); assigned := [d]; predict := None
+           if o = "div" && sg (rn_sgn pool.(b).x) = 0 then raise (Skip "division by zero");
+           (* the reference result is computed by the verified checker (next_pool) when the step is checked *)
+           vitem := ((match o with "add" -> CAdd (nat d, nat a, nat b) | "sub" -> CSub (nat d, nat a, nat b)
+                                 | "mul" -> CMul (nat d, nat a, nat b) | _ -> CDiv (nat d, nat a, nat b)), BNone);
+           assigned := [d]; predict := None
          | ["inv"; _; _] ->
            let d = slot 1 and a = slot 2 in ignore (next ());
            if sg (rn_sgn pool.(a).x) = 0 then raise (Skip "inverse of zero");
-           pool.(d) <- fresh (some (rn_inv fuel pool.(a).x)); assigned := [d]; predict := None
+           vitem := (CInv (nat d, nat a), BNone); assigned := [d]; predict := None
          | ["neg"; _; _] ->
            let d = slot 1 and a = slot 2 in ignore (next ());
-           pool.(d) <- fresh (rn_neg pool.(a).x); assigned := [d]; predict := None
+           vitem := (CNeg (nat d, nat a), BNone); assigned := [d]; predict := None
          | ["cp"; _; _] ->
            let d = slot 1 and a = slot 2 in ignore (next ());
-           pool.(d) <- pool.(a); assigned := [d];
+           vitem := (CCopy (nat d, nat a), BNone); assigned := [d];
            after_check := (fun after ->
                (* a copy is field-for-field the original (which the copy operation itself must not have touched) *)
                if after.(d).tok <> before.(a).tok then fail "%s: the copy is %s, the original was %s" what after.(d).tok before.(a).tok)
@@ -400,16 +461,26 @@ let run (toks : string list) (cout : string list) : string =
            after_check := (fun after -> if after.(i).tok <> before.(i).tok then fail "%s: reconstructed %s from a copy of %s" what after.(i).tok before.(i).tok)
          | ["ps"; _] ->
            let k = slot 1 in
-           let e = pval_sign (eval_ref (rho None) polys.(k)) in
-           obs_sign "lp_polynomial_sgn" e; predict := None; after_check := check_restored what before
+           if naive_cost (rho None) polys.(k) <= exact_limit then begin
+             (* exact: Model.mp_eval_rn inside the verified checker decides (check_obs, CPSgn) *)
+             let o = next () in
+             if not (List.mem o ["-1"; "0"; "1"]) then fail "%s: lp_polynomial_sgn is %s" what o;
+             vitem := (CPSgn polys.(k), BInt (z_of_string o))
+           end else begin
+             let e = pval_sign (eval_ref (rho None) polys.(k)) in
+             obs_sign "lp_polynomial_sgn" e
+           end;
+           predict := None; after_check := check_restored what before
          | ["pe"; _] ->
            let k = slot 1 in let o = next () in
            let t1 = Sys.time () in
-           let e = eval_ref (rho None) polys.(k) in
+           let huge = String.length o > 1500 in
+           let exact = (not huge) && naive_cost (rho None) polys.(k) <= exact_limit in
+           (* exact regime: Model.mp_eval_rn inside the verified checker decides (check_obs, CPEval) *)
+           let e = if exact then Encl ((Z0, z_of_int 1), (Z0, z_of_int 1)) else eval_ref (rho None) polys.(k) in
            let t2 = Sys.time () in
            (* a result with a huge defining polynomial (degree 16, hundreds of digits) is not Sturm-validated here - that is
               the business of C10; it is only located: its interval must lie inside the reference enclosure *)
-           let huge = String.length o > 1500 in
            let r = if not huge then parse_rep o else
                (match split ':' o with
                 | ["a"; cs; lo; hi; _; _] ->
@@ -417,7 +488,8 @@ let run (toks : string list) (cout : string list) : string =
                   { tok = o; kind = "a"; v = RA (upoly_of_string cs, l, h); lo = l; hi = h; f = None; sa = 0; sb = 0 }
                 | _ -> parse_rep o) in
            let t3 = Sys.time () in
-           let ok = if not huge then pval_holds e r.v else
+           if exact then vitem := (CPEval polys.(k), BNum (raw_of r));
+           let ok = if exact then true else if not huge then pval_holds e r.v else
                (match e with
                 | Exact x -> sg (rn_cmp_q x r.lo) >= 0 && sg (rn_cmp_q x r.hi) <= 0
                 | Encl (l, h) -> q_le r.lo h && q_le l r.hi) in
@@ -456,6 +528,8 @@ let run (toks : string list) (cout : string list) : string =
         tick "op";
         let after = read_reps () in
         tick "parse+validate reps";
+        vstep what (fst !vitem) (snd !vitem) (Some after);
+        tick "verified checker";
         check_reps what after;
         tick "denotation of reps";
         check_narrow what before after !assigned;
@@ -477,23 +551,28 @@ let run (toks : string list) (cout : string list) : string =
         let bwhat = what ^ " battery" in
         for i = 0 to ns - 1 do
           let o = next () in let e = sg (rn_sgn pool.(i).x) in
-          if o <> string_of_int e then fail "%s: sign of slot %d is %s, reference %d" bwhat i o e
+          if o <> string_of_int e then fail "%s: sign of slot %d is %s, reference %d" bwhat i o e;
+          vstep bwhat (CSgn (nat i)) (BInt (z_of_int e)) None
         done;
         for i = 0 to ns - 1 do
           let o = next () in
-          if o <> rfloor pool.(i) then fail "%s: floor of slot %d is %s, reference %s" bwhat i o (rfloor pool.(i))
+          if o <> rfloor pool.(i) then fail "%s: floor of slot %d is %s, reference %s" bwhat i o (rfloor pool.(i));
+          vstep bwhat (CFloor (nat i)) (BInt (z_of_string o)) None
         done;
         for i = 0 to ns - 1 do for j = i + 1 to ns - 1 do
             let o = next () in let e = rcmp pool.(i) pool.(j) in
-            if o <> string_of_int e then fail "%s: cmp(slot %d, slot %d) is %s, reference %d" bwhat i j o e
+            if o <> string_of_int e then fail "%s: cmp(slot %d, slot %d) is %s, reference %d" bwhat i j o e;
+            vstep bwhat (CCmp (nat i, nat j)) (BInt (z_of_int e)) None
           done done;
         for i = 0 to ns - 1 do List.iter (fun q ->
             let o = next () in let e = sg (rn_cmp_q pool.(i).x q) in
-            if o <> string_of_int e then fail "%s: cmp(slot %d, %s) is %s, reference %d" bwhat i (string_of_rat q) o e) batq done;
+            if o <> string_of_int e then fail "%s: cmp(slot %d, %s) is %s, reference %d" bwhat i (string_of_rat q) o e;
+            vstep bwhat (CCmpQ (nat i, q)) (BInt (z_of_int e)) None) batq done;
         tick "battery";
         expect "|";
         let after2 = read_reps () in
         tick "parse+validate reps after battery";
+        vstep bwhat CTouch BNone (Some after2);
         check_reps bwhat after2;
         tick "denotation after battery";
         check_narrow bwhat after after2 [];
